@@ -5,6 +5,7 @@ import (
 	"net"
 	"sort"
 	"strings"
+	"syscall"
 	"testing/synctest"
 	"time"
 
@@ -27,7 +28,7 @@ type Event struct {
 	TCP    bool          `json:"tcp,omitempty"`
 	As     string        `json:"as,omitempty"`   // authenticate as this user instead of the client's own
 	Even   bool          `json:"even,omitempty"` // Allocate with EVEN-PORT (R bit set): the manager probes for an even port first
-	Fail   string        `json:"fail,omitempty"` // Allocate: "gen" = the relay address generator fails, "quota" = the quota handler refuses
+	Fail   string        `json:"fail,omitempty"` // Allocate: "gen" = the relay address generator fails, "quota" = the quota handler refuses; ChannelBind that repeats an existing binding: "respwrite" = the server's write of the response fails once (ENOBUFS)
 }
 
 // Class renders the event without computed values, for signatures.
@@ -64,6 +65,10 @@ func (e Event) Class() string {
 	case "perm":
 		return fmt.Sprintf("perm(%s,%s)", e.C, strings.Join(e.Peers, "+"))
 	case "chan":
+		if e.Fail == "respwrite" {
+			return fmt.Sprintf("chan(%s,%#x,%s,response-write-fails)", e.C, e.N, strings.Join(e.Peers, "+"))
+		}
+
 		return fmt.Sprintf("chan(%s,%#x,%s)", e.C, e.N, strings.Join(e.Peers, "+"))
 	case "adv":
 		return fmt.Sprintf("adv(%s)", e.Rule)
@@ -385,11 +390,28 @@ func (x *Exec) Apply(ev Event) *Viol { //nolint:gocyclo,cyclop,maintidx,gocognit
 		c := w.C[ev.C]
 		a := m.Allocs[ev.C]
 		p := PeerSpec[ev.Peers[0]]
+		lostResp := false
+		if ev.Fail == "respwrite" && a != nil && w.SrvSock != nil && c.Sock != nil && c.Nonce != "" {
+			if ex, ok := a.Chans[ev.N]; ok && ex.Peer.IP.Equal(p.IP) && ex.Peer.Port == p.Port {
+				// the repeat of an established binding whose answer the server cannot write: the binding stays (and is refreshed)
+				w.SrvSock.WriteErr, w.SrvSock.WriteErrOnce, lostResp = syscall.ENOBUFS, true, true
+			}
+		}
 		res := c.Request(wire.ChannelBind, nil, func(b *wire.B) {
 			b.U32(wire.AttrChannelNumber, uint32(ev.N)<<16)
 			b.XorAddr(wire.AttrXORPeerAddress, p.IP, p.Port)
 		})
 		x.Trace = append(x.Trace, ev.String()+"->"+respStr(res))
+		if lostResp {
+			w.SrvSock.WriteErr = nil
+			if res.Resp != nil {
+				return x.viol("harness", "response-arrived-although-its-write-was-failed", ev, respStr(res))
+			}
+			a.Chans[ev.N] = &MChan{Peer: p, Exp: now.Add(m.Cfg.ChanOrDefault())}
+			a.Perms[p.IP.String()] = now.Add(m.Cfg.PermOrDefault())
+
+			return nil
+		}
 		if a == nil {
 			if res.Resp != nil && res.Resp.Class == wire.Success {
 				return x.viol("resp", "chan-without-allocation-success", ev, respStr(res))
